@@ -20,7 +20,7 @@ def case_of(st):
     return {'lines': [e['line'] for e in st['entries']], 'k': st['k'], 'strategy': st['strategy'], 'dialect': st['dialect'], 'expected': exp}
 
 
-def run_stream(ctx, st, want=('C02', 'C03', 'C04'), extra_case=None, session_kwargs=None, hooks=None):
+def run_stream(ctx, st, want=('C02', 'C03', 'C04'), extra_case=None, session_kwargs=None, hooks=None, api_reuse=False, before_read=None):
     """Feed the stream; return (session, problems) where problems = [(prop, kind, msg, line_index)]."""
     env.setup()
     contracts.install()
@@ -28,7 +28,14 @@ def run_stream(ctx, st, want=('C02', 'C03', 'C04'), extra_case=None, session_kwa
     before_logs = dict(lc.counts)
     s = Session(**(session_kwargs or {}))
     entries = st['entries']
-    s.feed([e['line'] + '\n' for e in entries], hooks=hooks)
+    if api_reuse:
+        # GDB-mode shape: every connection of the stream arrives under ONE connection id, which is closed and opened
+        # again between them (a wl_connection address used again).  The stream must keep its connections apart in
+        # time (interleave='first'); the closing happens with the first line of the next connection.
+        reopen = set(j for j in range(1, len(entries)) if entries[j]['ci'] != entries[j - 1]['ci'])
+        s.feed_api([e['line'] for e in entries], ['reused-id'] * len(entries), reopen=reopen, before_read=before_read)
+    else:
+        s.feed([e['line'] + '\n' for e in entries], hooks=hooks)
     probs = []
 
     def P(prop, kind, msg, idx=None):
@@ -81,6 +88,9 @@ def run_stream(ctx, st, want=('C02', 'C03', 'C04'), extra_case=None, session_kwa
                     [got_d['type'], got_d['id'], got_d['gen']] == [want_d[0], want_d[1], history.letters(want_d[2])])
                 if not d_ok:
                     P('C03', 'destroyed-annotation', 'expected %r, shown %r' % (exp, it['text'][:300]), idx)
+                elif want_d is not None and streams.compare_line(msgs[0]['text'], exp.replace(' after LIFE', ''), streams.exp_floats(e['rec'], st['dialect']))[0] is None:
+                    # everything as expected except that the lifespan is not there
+                    P('C03', 'lifespan-missing', 'no lifespan on %r' % msgs[0]['text'][:200], idx)
                 else:
                     P('C02', 'attribution', '%s: expected %r, shown %r' % (prob, exp, it['text'][:300]), idx)
             continue
@@ -176,7 +186,12 @@ def replay_lines(ctx, case, want):
     """re-feed the stored lines and compare every shown line with the stored ground-truth text again"""
     contracts.install()
     s = Session()
-    s.feed([l + '\n' for l in case['lines']])
+    if case.get('api_reuse'):
+        cis = case['api_reuse']
+        s.feed_api(case['lines'], ['reused-id'] * len(cis), reopen=set(j for j in range(1, len(cis)) if cis[j] != cis[j - 1]))
+        print('(all lines delivered under one connection id, closed and opened again where the connection changes)')
+    else:
+        s.feed([l + '\n' for l in case['lines']])
     per = s.per_read()
     exp = case.get('expected') or []
     bad = None
